@@ -393,6 +393,27 @@ fn run_wasm(job: &Job, res: &mut RunResult) {
     };
     let nops = rng.range(6, 36);
     let mut script: Vec<String> = vec![format!("new {:?}; text {:?}", dialect, text.iter().collect::<String>())];
+    if prop == "C14" && rng.chance(1, 2) {
+        // C14 keeps the dictionary fixed during the history, but not empty: the user has taught the
+        // linter some of the words of this very text before the history starts
+        let s0: String = text.iter().collect();
+        let first = long.lint(s0, lang(markdown));
+        let mut ws: Vec<String> = vec![];
+        for (w, l) in first.iter().zip(inner_lints(&first).iter()) {
+            if l.lint_kind.is_spelling() && rng.chance(1, 2) {
+                let t = w.get_problem_text();
+                if !ws.iter().any(|x: &String| norm(x) == norm(&t)) {
+                    ws.push(t);
+                }
+            }
+        }
+        if !ws.is_empty() {
+            long.import_words(ws.clone());
+            m.words = ws.clone();
+            script.push(format!("import_words {ws:?} (before the history)"));
+            res.count("c14_user_words_present", 1);
+        }
+    }
     let mut sig = fnv1a(text.iter().collect::<String>().as_bytes());
     for step in 0..nops {
         let s: String = text.iter().collect();
